@@ -19,6 +19,7 @@ CONSTANTS Cfgs,    \* identifiers of configurations a client may upload, e.g. {1
           Idxs     \* identifiers of encrypted databases a client may upload, e.g. {1,2}
 
 VARIABLES st, cfg, idx
+\* @type: <<Int, Int, Int>>;
 svars == <<st, cfg, idx>>
 
 Outcomes == {"ok", "refused", "result", "none"}
